@@ -50,7 +50,7 @@ pub fn exec(ctx: &mut Ctx, case: &Case) {
 
 pub fn generate(ctx: &mut Ctx) {
     let mut bi = 0u64;
-    let maxlen = ctx.by_tier(2u64, 3u64);
+    let maxlen = if ctx.tiny() { 0 } else { ctx.by_tier(2u64, 3u64) };
     for pre in PRES {
         for p in PATHS {
             for suf in SUFS {
@@ -69,7 +69,7 @@ pub fn generate(ctx: &mut Ctx) {
             }
         }
     }
-    let n = ctx.by_tier(30_000u64, 1_500_000u64) / ctx.nshards;
+    let n = ctx.random_budget(480, 30_000, 1_500_000);
     for i in 0..n {
         let mut rng = ctx.rng("hist", i);
         let mut o = gen::Opts::new(rng.chance(1, 2));
